@@ -171,6 +171,11 @@ func (b *Buffer) WriteByte(s byte) error {
 func (b *Buffer) WriteRune(s rune) error {
 	b.startWrite()
 	l := utf8.RuneLen(s)
+	if l < 0 {
+		// Invalid rune (surrogate, negative, out of range): EncodeRune
+		// below writes the replacement character.
+		l = utf8.RuneLen(utf8.RuneError)
+	}
 	m, ok := b.tryGrowByReslice(l)
 	if !ok {
 		m = b.grow(l)
